@@ -600,6 +600,52 @@ def _(torch, v):
     return d, d is s, r
 
 
+# ---- emu_mps algebra / mps / mpo idioms (C11) --------------------------------------------------
+@case("add_factors idiom: cat along 0 / -1 with zero padding (rank 3 and 4); zero_() on the result does not reach the operands",
+      {"a": ((2, 3, 2), C), "b": ((1, 3, 3), C), "A": ((2, 2, 2, 1), C), "Bm": ((3, 2, 2, 2), C)})
+def _(torch, a, b, A, Bm):
+    out = []
+    for c1, c2 in ((a, b), (A, Bm)):
+        first = torch.cat((c1[:1], c2[:1]), dim=-1)
+        last = torch.cat((c1[..., :1], c2[..., :1]), dim=0)
+        p1 = torch.cat((c1, torch.zeros((c2.shape[0], *c1.shape[1:]), device=c1.device, dtype=c1.dtype)), dim=0)
+        p2 = torch.cat((torch.zeros((c1.shape[0], *c2.shape[1:]), device=c1.device, dtype=c1.dtype), c2), dim=0)
+        mid = torch.cat((p1, p2), dim=-1)
+        snap = (first.clone(), last.clone(), mid.clone())
+        first.zero_()
+        mid.zero_()
+        out.append((snap, first, mid, c1, c2, mid.shape, last.shape))
+    return out
+
+
+@case("MPS.inner / new_left_bath idiom: tensordot dims=1 and index lists, conj, view(1)[0]",
+      {"f": ((2, 3, 2), C), "g": ((3, 3, 2), C), "o": ((2, 3, 3, 2), C), "acc": ((2, 3), C), "bath": ((2, 2, 2), C)})
+def _(torch, f, g, o, acc, bath):
+    x = torch.tensordot(acc, g, dims=1)
+    x = torch.tensordot(f.conj(), x, dims=([0, 1], [0, 1]))
+    b = torch.tensordot(bath, f.conj(), ([0], [0]))
+    b = torch.tensordot(b, o.to(b.device), ([0, 2], [0, 1]))
+    b = torch.tensordot(b, f, ([0, 2], [0, 1]))
+    one = torch.ones(1, 1, dtype=f.dtype, device=f.device)
+    return x, b, b.shape, torch.tensordot(one, f[:1], dims=1), (x[:1, :1] * 1).view(1)[0].cpu(), f, g
+
+
+@case("MPS.apply / scale_factors idiom: (d,d) @ (Dl,d,Dr) broadcast, .mT, python scalar and 0-d tensor times a factor",
+      {"op": ((3, 3), C), "f": ((2, 3, 2), C), "z": ((), C)})
+def _(torch, op, f, z):
+    w = 0.5 - 1.5j
+    lst = [f, f[:1]]
+    scaled = [w * t if i == 0 else t for i, t in enumerate(lst)]
+    return (op @ f, op.mT @ f, w * f, z * f, scaled[0], scaled[0] is not f, scaled[1] is lst[1],
+            (op.to(f.device) @ f).shape, f)
+
+
+@case("MPS.norm / overlap idiom: factor.norm() ** 2, torch.abs(0-d) ** 2 (the square of the root is the radicand)",
+      {"f": ((2, 3, 2), C), "z": ((), C)}, tol=1e-9)
+def _(torch, f, z):
+    return f.norm().cpu() ** 2, torch.abs(z) ** 2, f
+
+
 # ------------------------------------------------------------------------------------------
 # input generation and result normalisation
 # ------------------------------------------------------------------------------------------
